@@ -1,4 +1,7 @@
-import ImathVerif.Lemmas.C09FrameLemmas
+import ImathVerif.Spec.TransformSpec
+import ImathVerif.Gen.C09Next
+import Mathlib.Tactic.Ring
+import Mathlib.Tactic.FinCases
 /-!
 Helper lemmas for C09: the extracted `nextFrame` tree as Mathlib matrices (slow to elaborate, hence its own module).
 -/
@@ -13,9 +16,6 @@ open ImathVerif Matrix
 section Next
 variable {α : Type} [Field α] [LinearOrder α] [IsStrictOrderedRing α]
 
-/-- translation matrix (row-vector convention) -/
-def transMat (v : V3 α) : Matrix (Fin 4) (Fin 4) α := !![1, 0, 0, 0; 0, 1, 0, 0; 0, 0, 1, 0; v.x, v.y, v.z, 1]
-
 /-- the transform `nextFrame` multiplies onto the previous frame (from the right: applied AFTER `Mi`) -/
 def nextFrameStep (tmin : α) (sqrt sin cos acos : α → α) (pi pj ti tj : V3 α) : Matrix (Fin 4) (Fin 4) α :=
   let len := Gen.V3.length tmin sqrt
@@ -24,7 +24,7 @@ def nextFrameStep (tmin : α) (sqrt sin cos acos : α → α) (pi pj ti tj : V3 
   let d0 := dot fi fj
   let d := if 1 < d0 then 1 else if d0 < -1 then -1 else d0
   if ¬ len ti = 0 ∧ ¬ len tj = 0 ∧ ¬ len (cross fi fj) = 0 ∧ ¬ acos d = 0 then
-    transMat (vneg pi) * (Gen.M44.setAxisAngle tmin sqrt sin cos M44.identity (cross fi fj) (acos d)).toMat * transMat pj
+    transMat (vneg pi) * (axisAngleM44 len (sin (acos d)) (cos (acos d)) (cross fi fj)).toMat * transMat pj
   else transMat (vsub pj pi)
 
 set_option maxHeartbeats 4000000 in
@@ -41,7 +41,7 @@ theorem nextFrame_toMat (tmin : α) (sqrt sin cos acos : α → α) (Mi : M44 α
   all_goals first
     | (exfalso; simp_all; done)
     | (ext i j; fin_cases i <;> fin_cases j <;>
-        simp [Gen.M44.setAxisAngle, transMat, M44.identity, M44.toMat, Matrix.mul_apply, Fin.sum_univ_four, vneg, vsub, *] <;> ring)
+        simp [axisAngleM44, frameM44, aaRow0, aaRow1, aaRow2, nrm, transMat, M44.toMat, Matrix.mul_apply, Fin.sum_univ_four, vneg, vsub, *] <;> ring)
 
 end Next
 end ImathVerif.C09
